@@ -158,7 +158,98 @@ fn check_i32(x: i32, sc: &mut VarScratch) -> Option<String> {
     }
 }
 
+/// Many values written one after another into one buffer that grows: every amount of spare capacity (0, 1 … bytes left
+/// before a reallocation) meets every encoding width.  Checked against the concatenated reference and read back in order.
+fn growing_buffers(ctx: &mut Ctx, acc: &mut Acc) {
+    let widths: [u32; 10] = [0, 1, 127, 128, 16_383, 16_384, (1 << 21) - 1, 1 << 21, (1 << 28) - 1, 1 << 28];
+    for cap in 0..=17usize {
+        if cap % ctx.shards != ctx.shard {
+            continue;
+        }
+        let mut rng = ctx.rng_for(0xC11 ^ 0x6B0, "growing", cap as u64);
+        let values: Vec<(bool, u32)> = (0..4000)
+            .map(|i| {
+                let signed = rng.chance(1, 3);
+                let v = match rng.below(4) {
+                    0 => rng.next_u32() | 0xF000_0000, // five bytes
+                    1 => *rng.pick(&widths) + rng.below(2) as u32,
+                    2 if i % 2 == 0 => u32::MAX - rng.below(1000) as u32,
+                    _ => rng.next_u32() >> rng.below(32),
+                };
+                (signed, v)
+            })
+            .collect();
+        let mut reference = Vec::new();
+        for (signed, v) in &values {
+            reference.extend_from_slice(&if *signed { vi_bytes(*v as i32) } else { vu_bytes(*v) });
+        }
+        let r = monitors::guarded(
+            || {
+                let mut bm = BytesMut::with_capacity(cap);
+                let mut vec: Vec<u8> = Vec::with_capacity(cap);
+                let mut size = SizeCalculator::new();
+                for (signed, v) in &values {
+                    if *signed {
+                        bm.write_var_i32(*v as i32);
+                        vec.write_var_i32(*v as i32);
+                        size.write_var_i32(*v as i32);
+                    } else {
+                        bm.write_var_u32(*v);
+                        vec.write_var_u32(*v);
+                        size.write_var_u32(*v);
+                    }
+                }
+                (bm.to_vec(), vec, size.size())
+            },
+            |_| None,
+        );
+        acc.case(Some(0x6B0 << 32 | cap as u64));
+        let fail = |acc: &mut Acc, what: String| {
+            acc.violation(
+                format!("C11|growing_buffer|{}", what.split(' ').next().unwrap_or("")),
+                J::obj().with("check", J::s("C11")).with("mode", J::s("varint")).with("initial_capacity", J::u(cap as u64)).with("values", J::u(values.len() as u64)).with("what", J::s(what)),
+            )
+        };
+        match r {
+            monitors::Outcome::Done((bm, vec, size)) => {
+                if bm != reference {
+                    let at = bm.iter().zip(&reference).position(|(a, b)| a != b).unwrap_or(bm.len().min(reference.len()));
+                    fail(acc, format!("BytesMut differs from the reference at byte {at} ({} vs {} bytes)", bm.len(), reference.len()));
+                } else if vec != reference {
+                    fail(acc, "Vec differs from the reference".to_string());
+                } else if size != reference.len() {
+                    fail(acc, format!("SizeCalculator counted {size}, {} written", reference.len()));
+                } else {
+                    // read everything back, in order, through the three inputs
+                    let mut a = SliceInput::new(&vec);
+                    let mut b = OwnedInput::new(vec.clone());
+                    let mut c = DeserializationContext::new(&vec);
+                    let mut bad = None;
+                    for (i, (signed, v)) in values.iter().enumerate() {
+                        let got = if *signed {
+                            (a.read_var_i32().map(|x| x as u32).ok(), b.read_var_i32().map(|x| x as u32).ok(), c.read_var_i32().map(|x| x as u32).ok())
+                        } else {
+                            (a.read_var_u32().ok(), b.read_var_u32().ok(), c.read_var_u32().ok())
+                        };
+                        if got != (Some(*v), Some(*v), Some(*v)) {
+                            bad = Some(format!("read_back value {i}: {got:?} expected {v}"));
+                            break;
+                        }
+                    }
+                    match bad {
+                        Some(w) => fail(acc, w),
+                        None => acc.count("growing_buffers_ok"),
+                    }
+                }
+            }
+            monitors::Outcome::Panicked(p) => fail(acc, format!("panic at {}: {}", monitors::normalise_site(&p.site), p.msg)),
+            monitors::Outcome::StepBudget(_) => {}
+        }
+    }
+}
+
 pub fn c11(ctx: &mut Ctx, acc: &mut Acc) -> i32 {
+    growing_buffers(ctx, acc);
     let mut sc = VarScratch { vec: Vec::with_capacity(8), bm: BytesMut::with_capacity(8) };
     let exhaustive = ctx.extra.get("exhaustive").map(|v| v == "1").unwrap_or(false);
     let mut n: u64 = 0;
@@ -262,6 +353,70 @@ pub fn c11(ctx: &mut Ctx, acc: &mut Acc) -> i32 {
         }
     }
     0
+}
+
+/// Every entry point runs the value's serializer exactly once: a codec may drain a one-shot source (a channel, an
+/// iterator) or count its calls, and then a second pass — say, a sizing pass in front of the real one — changes the
+/// bytes.  The monitor is a call counter inside a client codec, reset before each entry point.
+fn exactly_one_pass(acc: &mut Acc) {
+    use desert::{BinaryOutput, BinarySerializer, SerializationContext, SizeCalculator};
+    use std::cell::{Cell, RefCell};
+    struct Counted {
+        calls: Cell<u32>,
+        source: RefCell<Vec<u32>>,
+    }
+    impl BinarySerializer for Counted {
+        fn serialize<O: BinaryOutput>(&self, c: &mut SerializationContext<O>) -> desert::Result<()> {
+            self.calls.set(self.calls.get() + 1);
+            c.write_u8(self.calls.get() as u8);
+            // a one-shot source: whatever is written is gone afterwards
+            let mut drained = self.source.borrow_mut().drain(..).collect::<Vec<u32>>().into_iter();
+            desert::serialize_iterator(&mut drained, c)
+        }
+    }
+    let fresh = || Counted { calls: Cell::new(0), source: RefCell::new(vec![7, 8, 9]) };
+    let want: Vec<u8> = vec![1, 6, 0, 0, 0, 7, 0, 0, 0, 8, 0, 0, 0, 9];
+    let mut outputs: Vec<(&str, Call<(u32, Vec<u8>)>)> = Vec::new();
+    let mut run = |name: &'static str, f: &dyn Fn(&Counted) -> desert::Result<Vec<u8>>| {
+        let (r, _) = sbase::monitored(None, || {
+            let v = fresh();
+            let bytes = f(&v).map_err(|e| sbase::classify(&e))?;
+            Ok((v.calls.get(), bytes))
+        });
+        outputs.push((name, r));
+    };
+    run("serialize_to_byte_vec", &|v| desert::serialize_to_byte_vec(v));
+    run("serialize_to_bytes", &|v| desert::serialize_to_bytes(v).map(|b| b.to_vec()));
+    run("serialize(Vec)", &|v| desert::serialize(v, Vec::new()));
+    run("serialize(BytesMut)", &|v| desert::serialize(v, bytes::BytesMut::new()).map(|b| b.to_vec()));
+    run("serialize(SizeCalculator)", &|v| desert::serialize(v, SizeCalculator::new()).map(|s| vec![0u8; s.size()]));
+    for (name, r) in outputs {
+        acc.case(Some(refmodel::rng::fnv64_str(name)));
+        let ok = match &r {
+            Call::Ok((1, bytes)) => {
+                if name.contains("SizeCalculator") {
+                    bytes.len() == want.len()
+                } else {
+                    *bytes == want
+                }
+            }
+            _ => false,
+        };
+        if ok {
+            acc.count("entry_points_with_exactly_one_pass");
+        } else {
+            acc.violation(
+                format!("C15|passes|{name}"),
+                J::obj().with("check", J::s("C15")).with("mode", J::s("content")).with("what", J::s("a codec that counts its calls and drains a one-shot source")).with("entry_point", J::s(name)).with(
+                    "got",
+                    J::s(match &r {
+                        Call::Ok((n, b)) => format!("{n} pass(es), bytes {}", short(b)),
+                        o => o.class(),
+                    }),
+                ).with("expected", J::s(format!("1 pass, bytes {}", short(&want)))),
+            );
+        }
+    }
 }
 
 /// Totals beyond 2^32 bytes with every single length far below the format's limits: a codec that writes one static
@@ -378,6 +533,7 @@ pub fn c15(ctx: &mut Ctx, acc: &mut Acc) -> i32 {
     }
     if ctx.shard == 0 && !ctx.only_fresh() {
         total_size_beyond_4_gib(acc);
+        exactly_one_pass(acc);
     }
     // the three inputs, result by result — ordinary and hostile read sequences
     let rounds = ctx.n(200_000, 2_000_000);
